@@ -30,11 +30,17 @@ def showRes : CopyResult → String
 
 def handle (args : List String) (obs : String) : String :=
   match args with
-  | [data, rs, e, _ws, _pend] =>
+  | data :: rs :: e :: _ws :: _pend :: rest =>
     match decBytes data, parseSizes rs with
     | some d, some sizes =>
       let src : Source := { pieces := pieces d sizes maxPiece, endsWithError := e == "err" }
-      let (out, res) := copyChunked src
+      let (out0, res0) := copyChunked src
+      -- optional 6th argument: the writer fails (permanently, or once with `Interrupted`) when it has accepted k bytes
+      let failAt : Option Nat := rest.head?.bind String.toNat?
+      let (out, res) := match failAt with
+        | some k => if k < out0.length then (out0.take k, CopyResult.writerErr) else (out0, res0)
+        | none => (out0, res0)
+      let cut : Bool := match failAt with | some k => decide (k < out0.length) | none => false
       let model := encBytes out ++ " " ++ showRes res
       let verdict :=
         match obs.splitOn " " with
@@ -43,7 +49,12 @@ def handle (args : List String) (obs : String) : String :=
           | some ob =>
             let dres := decode ob
             let fails :=
-              if e == "err" then
+              if cut then
+                -- a failed writer: what reached it is a prefix of the one correct output, and the failure is reported
+                (if ob.isPrefixOf out0 then [] else ["not-a-prefix-of-the-encoding"]) ++
+                (if r == "werr" then [] else ["write-error-not-reported"]) ++
+                (match dres with | .complete .. => ["truncated-output-looks-complete"] | _ => [])
+              else if e == "err" then
                 (if dres == .incomplete then [] else ["error-looks-complete"]) ++
                 (if r == "rerr" then [] else ["error-not-reported"])
               else
